@@ -17,7 +17,7 @@ def config(tier):
     return {
         'level': 'exploration',
         'cold_sample': 2 if tier == 'quick' else 10,
-        'real_sample': 3 if tier == 'quick' else 20,
+        'real_sample': 8 if tier == 'quick' else 40,
         'cases': 450 if tier == 'quick' else 6000,
         'budget_s': 55 if tier == 'quick' else 570,
         'floors': {'cases': 40, 'steps': 500, 'list_comparisons': 500,
